@@ -1,11 +1,25 @@
 use crate::ctx::Ctx;
 
 pub mod c02;
+pub mod c05;
+pub mod c13;
 pub mod c06;
+pub mod c07;
+pub mod c15;
+pub mod c16;
+pub mod c17;
+pub mod c18;
 
 pub fn dispatch(ctx: &mut Ctx) {
     match ctx.prop.as_str() {
         "C02" => c02::run(ctx),
+        "C05" => c05::run(ctx),
+        "C13" => c13::run(ctx),
+        "C07" => c07::run(ctx),
+        "C15" => c15::run(ctx),
+        "C16" => c16::run(ctx),
+        "C17" => c17::run(ctx),
+        "C18" => c18::run(ctx),
         other => {
             ctx.harness_error(format!("unknown property {other}"));
         }
